@@ -132,6 +132,32 @@ def solveCubic (F : CubicFns α) (a b c d : α) : Int × List α :=
   if a == 0 then solveQuadratic F.sqrt b c d
   else solveNormalizedCubic F (b / a) (c / a) (d / a)
 
+
+/-! ### Variant of the D > 0 branch with the cancellation-free sign choice
+
+`T u = real_root ((q > 0) ? -q / 2 - std::sqrt (D) : -q / 2 + std::sqrt (D), 3);`
+This is the repair proposed for the defect `cubic_real_branch_defect`; it is NOT what the
+source says today.  tools/props/c17.py reads the `T u = real_root (…)` line of ImathRoots.h and
+executes this variant in the correspondence only when the source has exactly this form. -/
+
+def cardanoAStable (F : CubicFns α) (r s t : α) : α :=
+  if cubicQ r s t > 0 then -(cubicQ r s t) / 2 - F.sqrt (cubicD r s t)
+  else -(cubicQ r s t) / 2 + F.sqrt (cubicD r s t)
+
+def cubicRealStable (F : CubicFns α) (r s t : α) : Int × List α :=
+  let u := realRoot F (cardanoAStable F r s t) 3
+  let v := -(cubicP r s) / (3 * u)
+  (1, [u + v - r / 3])
+
+def solveNormalizedCubicStable (F : CubicFns α) (r s t : α) : Int × List α :=
+  if cubicD r s t == 0 && cubicP r s / 3 == 0 then (1, [-r / 3, -r / 3, -r / 3])
+  else if cubicD r s t > 0 then cubicRealStable F r s t
+  else cubicComplex F r s t
+
+def solveCubicStable (F : CubicFns α) (a b c d : α) : Int × List α :=
+  if a == 0 then solveQuadratic F.sqrt b c d
+  else solveNormalizedCubicStable F (b / a) (c / a) (d / a)
+
 /-- which branch `solveNormalizedCubic` takes (for hit counts): 0 triple root,
 1 real (D > 0), 2 complex with D = 0, 3 complex with D < 0 -/
 def cubicBranch (r s t : α) : Nat :=
